@@ -228,18 +228,43 @@ HOLE_NAMES = {
 }
 
 
-def _mask_ok(s: str, mask: str) -> bool:
-    if len(s) != len(mask):
-        return False
-    for i in range(len(mask)):
-        m = mask[i]
+def _holes_ok(h: str, mask: str) -> bool:
+    """h: the characters that fill the holes of the mask, left to right"""
+    k = 0
+    for m in mask:
         al = HOLES.get(m)
-        if al is None:
-            if s[i] != m:
+        if al is not None:
+            k += 1
+    if len(h) != k:
+        return False
+    k = 0
+    for m in mask:
+        al = HOLES.get(m)
+        if al is not None:
+            if h[k] not in al:
                 return False
-        elif s[i] not in al:
-            return False
+            k += 1
     return True
+
+
+def _fill(mask: str, h: str) -> str:
+    """the text of the family `mask` selected by the hole characters h (pinned characters stay concrete)"""
+    r = ''
+    k = 0
+    i = 0
+    n = len(mask)
+    while i < n:
+        if mask[i] in HOLES:
+            r = r + h[k]
+            k += 1
+            i += 1
+        else:
+            j = i
+            while j < n and mask[j] not in HOLES:
+                j += 1
+            r = r + mask[i:j]
+            i = j
+    return r
 
 
 def _mask_bound(mask: str) -> str:
@@ -290,23 +315,29 @@ REAL_K2F = (
 K2_ALPHABET_U = '@[]\xe9 1'
 
 
-def _pre_k2(s: str) -> bool:
+def _pre_k2(h: str) -> bool:
     c = ob.case()
     if 'mask' in c:
-        return _mask_ok(s, c['mask'])
-    return len(s) == c['len'] and _in_alphabet(s, c['alphabet'])
+        return _holes_ok(h, c['mask'])
+    return len(h) == c['len'] and _in_alphabet(h, c['alphabet'])
+
+
+def _k2_text(h: str) -> str:
+    c = ob.case()
+    return _fill(c['mask'], h) if 'mask' in c else h
 
 
 def _frag_list(frs):
     return [(bool(f.is_symbol), f.value) for f in frs]
 
 
-def k2_split(s: str) -> bool:
+def k2_split(h: str) -> bool:
     """
-    pre: _pre_k2(s)
+    pre: _pre_k2(h)
     post: _
     """
     from exactly_lib.symbol import symbol_syntax
+    s = _k2_text(h)
     want = ref.split_refs(s)
     if ob.case().get('oracle_bug'):
         # seeded oracle error: `-` may be part of a symbol name
@@ -374,12 +405,12 @@ def _k2_forms_check(s: str) -> bool:
     return True
 
 
-def k2_forms(s: str) -> bool:
+def k2_forms(h: str) -> bool:
     """
-    pre: _pre_k2(s)
+    pre: _pre_k2(h)
     post: _
     """
-    return ob.post(_k2_forms_check(s))
+    return ob.post(_k2_forms_check(_k2_text(h)))
 
 
 def _k2_obligations(tier: str) -> List[Ob]:
@@ -458,8 +489,72 @@ def _ref_names_of_text(text: str):
     return [t for is_sym, t in ref.split_refs(text) if is_sym]
 
 
+def _merge(pieces):
+    """[(is_symbol, text)] with adjacent constants merged and empty constants dropped"""
+    out = []
+    for is_sym, t in pieces:
+        if is_sym:
+            out.append((True, t))
+        elif t != '':
+            if out and not out[-1][0]:
+                out[-1] = (False, out[-1][1] + t)
+            else:
+                out.append((False, t))
+    return out
+
+
+def _pieces_of_parts(parts, soft_protects: bool = False):
+    """documented fragmentation of a token: hard-quoted contents are constants, the others are
+    constants and references"""
+    out = []
+    for form, c in parts:
+        if form == ref.HARD or (soft_protects and form == ref.SOFT):
+            out.append((False, c))
+        else:
+            out = out + ref.split_refs(c)
+    return _merge(out)
+
+
+def _pieces_of_sdv(sdv):
+    """the fragments of a real StringSdv as [(is_symbol, text)]"""
+    out = []
+    for f in sdv.fragments:
+        if f.is_string_constant:
+            out.append((False, f.string_constant))
+        else:
+            out.append((True, f.symbol_name))
+    return _merge(out)
+
+
+def _names_of_pieces(pieces):
+    return [t for is_sym, t in pieces if is_sym]
+
+
+def _value_of_pieces(pieces, values) -> str:
+    r = ''
+    for is_sym, t in pieces:
+        r = r + (values[t] if is_sym else t)
+    return r
+
+
+def _sdv_agrees(sdv, pieces, va: str, vb: str) -> bool:
+    """the real StringSdv has the documented fragments and reports exactly their references; with
+    case['values'] its resolved value (symbols A, B, L defined with symbolic values) is compared too"""
+    if _pieces_of_sdv(sdv) != pieces:
+        return False
+    names = _names_of_pieces(pieces)
+    if [r.name for r in sdv.references] != names:
+        return False
+    if ob.case().get('values') and _names_defined(names):
+        got = sdv.resolve(_symbol_table(va, vb)).value_when_no_dir_dependencies()
+        if got != _value_of_pieces(pieces, _string_values(va, vb)):
+            return False
+    return True
+
+
 def _values_ok(va: str, vb: str) -> bool:
-    return len(va) <= 2 and len(vb) <= 2
+    la, lb = ob.case().get('vlen', (1, 1))  # lengths of the symbol values (case); the characters are free
+    return len(va) == la and len(vb) == lb
 
 
 def _after_token_ok(ts, s: str, toks, err, k: int, end_prev: int) -> bool:
@@ -511,18 +606,19 @@ REAL_K3 = (
 )
 
 
-def _pre_text(s: str, va: str, vb: str) -> bool:
+def _pre_text(h: str, va: str, vb: str) -> bool:
     c = ob.case()
-    if not _mask_ok(s, c['mask']) or not _values_ok(va, vb):
+    if not _holes_ok(h, c['mask']) or not _values_ok(va, vb):
         return False
-    if ob.excluded(REGION_HASH) and ref.has_unquoted(s, '#'):
+    if ob.excluded(REGION_HASH) and ref.has_unquoted(_fill(c['mask'], h), '#'):
         return False
     return True
 
 
-def _pre_k3(s: str, va: str, vb: str) -> bool:
-    if not _pre_text(s, va, vb):
+def _pre_k3(h: str, va: str, vb: str) -> bool:
+    if not _pre_text(h, va, vb):
         return False
+    s = _fill(ob.case()['mask'], h)
     toks, err = ref.tokenize(s)
     if len(toks) > 0:
         parts = toks[0].parts
@@ -569,26 +665,19 @@ def _k3_check(s: str, va: str, vb: str) -> bool:
     if want_error:
         return False
     t0 = toks[0]
-    names = _ref_names_of_parts(t0.parts, soft_protects=bug)  # seeded oracle error: soft quotes protect too
-    if [r.name for r in sdv.references] != names:
+    pieces = _pieces_of_parts(t0.parts, soft_protects=bug)  # seeded oracle error: soft quotes protect too
+    if not _sdv_agrees(sdv, pieces, va, vb):
         return False
-    if not _after_token_ok(ts, s, toks, err, 1, t0.end):
-        return False
-    if _names_defined(names):
-        got = sdv.resolve(_symbol_table(va, vb)).value_when_no_dir_dependencies()
-        want = ref.denotation(t0.parts, _string_values(va, vb)) if not bug else None
-        if not bug and got != want:
-            return False
-    return True
+    return _after_token_ok(ts, s, toks, err, 1, t0.end)
 
 
-def k3_denote(s: str, va: str, vb: str) -> bool:
+def k3_denote(h: str, va: str, vb: str) -> bool:
     """
-    pre: _pre_k3(s, va, vb)
+    pre: _pre_k3(h, va, vb)
     post: _
     """
     _install_io()
-    return ob.post(_k3_check(s, va, vb))
+    return ob.post(_k3_check(_fill(ob.case()['mask'], h), va, vb))
 
 
 K3_OUTSIDE = ('tokens in which a symbol reference is split over two adjacent fragments (e.g. `@[A"]@"`): undocumented',
@@ -619,14 +708,14 @@ def _k3_obligations(tier: str) -> List[Ob]:
     for nm, m in _numbered('K3:', _k3_masks(tier)):
         obs.append(Ob(
             name=nm, fn='k3_denote', case=dict(mask=m), kernel='K3',
-            bound=_mask_bound(m) + '; values of the symbols A, B: every string of <= 2 characters',
+            bound=_mask_bound(m) + '; values of the symbols A, B: every string of 1 character',
             timeout=900, real=REAL_K3, stubs=(STUB_IO,), outside=K3_OUTSIDE,
             entry='parse_string.parse_string_from_token_parser(new_token_parser(source))'))
     for i, (entry, m) in enumerate((('rich', '"&@[A]@&"a ^'), ('rich', "^'^'@[A]@ ^"), ('either', '@[A]@& ^'),
                                     ('either', '"@[A]@"^^'), ('either', '&@[A]@ ^'))):
         obs.append(Ob(
             name='K3:%s%d-%s' % (entry, i + 1, _mask_name(m)), fn='k3_denote', case=dict(mask=m, entry=entry), kernel='K3',
-            bound=_mask_bound(m) + '; values of the symbols A, B: every string of <= 2 characters',
+            bound=_mask_bound(m) + '; values of the symbols A, B: every string of 1 character',
             timeout=900, real=REAL_K3, stubs=(STUB_IO,), outside=K3_OUTSIDE,
             entry='RichStringParser / SymbolReferenceOrStringParser on new_token_parser(source)'))
     obs.append(Ob(name='K3:seeded-oracle-error', fn='k3_denote', case=dict(mask='"@[A]@"&', oracle_bug=True),
@@ -658,10 +747,11 @@ K4_MARKER = 'E'
 K4_START = '<<E'
 
 
-def _pre_k4(s: str, va: str, vb: str) -> bool:
+def _pre_k4(h: str, va: str, vb: str) -> bool:
     c = ob.case()
-    if not _mask_ok(s, c['mask']) or not _values_ok(va, vb):
+    if not _holes_ok(h, c['mask']) or not _values_ok(va, vb):
         return False
+    s = _fill(c['mask'], h)
     # region: a `#` outside quotes on the line of the start marker
     if ob.excluded(REGION_HASH) and ref.has_unquoted(s[:_line_end(s, 0)], '#'):
         return False
@@ -708,28 +798,21 @@ def _k4_check(s: str, va: str, vb: str) -> bool:
     if not start_ok or idx == -1:
         return False
     text = ref.lines_text(lines[:idx])
-    names = _ref_names_of_text(text)
-    if [r.name for r in sdv.references] != names:
+    if not _sdv_agrees(sdv, _merge(ref.split_refs(text)), va, vb):
         return False
     # the parser stops at the end of the line with the end marker; what follows is untouched
     if ts.position != offs[idx] or ts.remaining_source != s[offs[idx]:]:
         return False
-    if ts.remaining_part_of_current_line != '':
-        return False
-    if _names_defined(names):
-        got = sdv.resolve(_symbol_table(va, vb)).value_when_no_dir_dependencies()
-        if got != ref.substitute(text, _string_values(va, vb)):
-            return False
-    return True
+    return ts.remaining_part_of_current_line == ''
 
 
-def k4_heredoc(s: str, va: str, vb: str) -> bool:
+def k4_heredoc(h: str, va: str, vb: str) -> bool:
     """
-    pre: _pre_k4(s, va, vb)
+    pre: _pre_k4(h, va, vb)
     post: _
     """
     _install_io()
-    return ob.post(_k4_check(s, va, vb))
+    return ob.post(_k4_check(_fill(ob.case()['mask'], h), va, vb))
 
 
 def _k4_masks(tier: str):
@@ -747,7 +830,7 @@ def _k4_obligations(tier: str) -> List[Ob]:
     for nm, m in _numbered('K4:', _k4_masks(tier)):
         obs.append(Ob(
             name=nm, fn='k4_heredoc', case=dict(mask=m), kernel='K4',
-            bound=_mask_bound(m) + '; values of the symbols A, B: every string of <= 2 characters',
+            bound=_mask_bound(m) + '; values of the symbols A, B: every string of 1 character',
             timeout=900, real=REAL_K4, stubs=(STUB_IO,),
             outside=('markers other than `E`; a quoted start marker',),
             entry='RichStringParser().parse_from_token_parser(new_token_parser(source))'))
@@ -843,9 +926,10 @@ def _ref_list(s: str, values, list_values, bug: bool):
         line_end = _line_end(s, t.end)
 
 
-def _pre_k5l(s: str, va: str, vb: str) -> bool:
-    if not _pre_text(s, va, vb):
+def _pre_k5l(h: str, va: str, vb: str) -> bool:
+    if not _pre_text(h, va, vb):
         return False
+    s = _fill(ob.case()['mask'], h)
     toks, err = ref.tokenize(s)
     for t in toks:
         if ref.reference_straddles(t.parts):
@@ -887,13 +971,13 @@ def _k5_list_check(s: str, va: str, vb: str) -> bool:
     return True
 
 
-def k5_list(s: str, va: str, vb: str) -> bool:
+def k5_list(h: str, va: str, vb: str) -> bool:
     """
-    pre: _pre_k5l(s, va, vb)
+    pre: _pre_k5l(h, va, vb)
     post: _
     """
     _install_io()
-    return ob.post(_k5_list_check(s, va, vb))
+    return ob.post(_k5_list_check(_fill(ob.case()['mask'], h), va, vb))
 
 
 def _k5_text_check(s: str, va: str, vb: str) -> bool:
@@ -906,38 +990,32 @@ def _k5_text_check(s: str, va: str, vb: str) -> bool:
     e0 = _line_end(s, toks[0].end)
     text = s[toks[0].end:e0]
     text = text if bug else text.strip(ref.WS)  # seeded oracle error: surrounding space is kept
-    names = _ref_names_of_text(text)
     tp = new_token_parser(s)
     ts = tp.token_stream
     sdv = parse_rich_string.RichStringParser().parse_from_token_parser(tp)
-    if [r.name for r in sdv.references] != names:
+    if not _sdv_agrees(sdv, _merge(ref.split_refs(text)), va, vb):
         return False
-    if ts.position != e0 or ts.remaining_source != s[e0:]:
-        return False
-    if _names_defined(names):
-        got = sdv.resolve(_symbol_table(va, vb)).value_when_no_dir_dependencies()
-        if got != ref.substitute(text, _string_values(va, vb)):
-            return False
-    return True
+    return ts.position == e0 and ts.remaining_source == s[e0:]
 
 
-def _pre_k5t(s: str, va: str, vb: str) -> bool:
+def _pre_k5t(h: str, va: str, vb: str) -> bool:
     c = ob.case()
-    if not _mask_ok(s, c['mask']) or not _values_ok(va, vb):
+    if not _holes_ok(h, c['mask']) or not _values_ok(va, vb):
         return False
+    s = _fill(c['mask'], h)
     # region: only a `#` glued to the `:>` marker matters (the text itself is not tokenized)
     if ob.excluded(REGION_HASH) and ref.has_unquoted(s[:s.find(':>') + 3], '#'):
         return False
     return True
 
 
-def k5_text(s: str, va: str, vb: str) -> bool:
+def k5_text(h: str, va: str, vb: str) -> bool:
     """
-    pre: _pre_k5t(s, va, vb)
+    pre: _pre_k5t(h, va, vb)
     post: _
     """
     _install_io()
-    return ob.post(_k5_text_check(s, va, vb))
+    return ob.post(_k5_text_check(_fill(ob.case()['mask'], h), va, vb))
 
 
 def _k5_obligations(tier: str) -> List[Ob]:
@@ -949,7 +1027,7 @@ def _k5_obligations(tier: str) -> List[Ob]:
     for nm, m in _numbered('K5:list:', lmasks):
         obs.append(Ob(
             name=nm, fn='k5_list', case=dict(mask=m), kernel='K5',
-            bound=_mask_bound(m) + '; values of A, B: every string of <= 2 characters; L = [A, B]',
+            bound=_mask_bound(m) + '; values of A, B: every string of 1 character; L = [A, B]',
             timeout=900, real=REAL_K5L, stubs=(STUB_IO,),
             outside=K3_OUTSIDE + ('a list-valued symbol referenced from a token that also has quoted fragments',),
             entry='parse_list.parse_list_from_token_parser(new_token_parser(source))'))
@@ -959,7 +1037,7 @@ def _k5_obligations(tier: str) -> List[Ob]:
     for nm, m in _numbered('K5:text:', tmasks):
         obs.append(Ob(
             name=nm, fn='k5_text', case=dict(mask=m), kernel='K5',
-            bound=_mask_bound(m) + '; values of A, B: every string of <= 2 characters',
+            bound=_mask_bound(m) + '; values of A, B: every string of 1 character',
             timeout=900, real=REAL_K5T, stubs=(STUB_IO,),
             entry='RichStringParser().parse_from_token_parser(new_token_parser(source))'))
     obs.append(Ob(name='K5:list:seeded-oracle-error', fn='k5_list', case=dict(mask='a \\\n!', oracle_bug=True),
